@@ -617,7 +617,10 @@ def parser_structure_rules(model: Model, run: Run, unesc) -> None:
                     # the compared value is a raw slice of the input: a local bound once from <view>[a:b].tobytes() / bytes(...)
                     if isinstance(e, ast.Name):
                         binds = [a.value for a in walk_no_nested(fi.node) if isinstance(a, ast.Assign) and any(isinstance(t, ast.Name) and t.id == e.id for t in a.targets)]
-                        if len(binds) == 1 and not definitely_decoded(fi, binds[0]) and not any(isinstance(x, ast.Call) and isinstance(x.func, ast.Attribute) and x.func.attr in ("strip", "lstrip", "rstrip", "replace") for x in ast.walk(binds[0])):
+                        # (bound more than once - cut at the first ')' in a second step - is as raw as its least raw binding)
+                        if binds and all(not definitely_decoded(fi, b_) and not any(isinstance(x, ast.Call) and isinstance(x.func, ast.Attribute) and x.func.attr in ("strip", "lstrip", "rstrip", "replace", "translate", "join", "lower", "upper")
+                                                                                     for x in ast.walk(b_)) and
+                                         (len(binds) == 1 or isinstance(b_, (ast.Subscript, ast.Call))) for b_ in binds):
                             ok = True
                 run.ob("J6-present-iff-raw-asterisk", ok, {"function": fi.name, "conditions": lits[-4:]})
                 if not ok:
